@@ -282,6 +282,95 @@ theorem bdd_sat_point (b : Bdd α) (r : Option (List Bool)) :
   | some p => simp [Bdd.isSatPoint, Bdd.IsSatPoint]
 end
 
+/-! ### the three representations agree -/
+section
+variable [DecidableEq α] [Ord α] [Std.TransOrd α] [Std.LawfulEqOrd α]
+
+theorem zip_map_filter_snd {β : Type} (l : List β) (f : β → Bool) :
+    ((l.zip (l.map f)).filter (·.2)).map (·.1) = l.filter f := by
+  induction l with
+  | nil => rfl
+  | cons a as ih =>
+    simp only [List.map_cons, List.zip_cons_cons, List.filter_cons]
+    cases f a <;> simp [ih]
+
+/-- the support of an expression is the domain filtered by the function, in domain order -/
+theorem expr_support_eq (e : Expr α) :
+    e.support = e.domain.filter fun p => e.den (atPoint e.inputs p) := by
+  simp only [Expr.support, Expr.relation, expr_image]
+  exact zip_map_filter_snd _ _
+
+theorem zipIdx_filter_map {β : Type} (f : Nat → β) (l : List Bool) (k : Nat) :
+    ((l.zipIdx k).filter (·.1)).map (fun x => f x.2) =
+      ((List.range' k l.length).filter fun i => l.getD (i - k) false).map f := by
+  induction l generalizing k with
+  | nil => rfl
+  | cons a as ih =>
+    simp only [List.zipIdx_cons, List.length_cons, List.range'_succ, List.filter_cons, Nat.sub_self,
+      List.getD_cons_zero]
+    have hrest : ((List.range' (k + 1) as.length).filter fun i => (a :: as).getD (i - k) false) =
+        (List.range' (k + 1) as.length).filter fun i => as.getD (i - (k + 1)) false := by
+      apply List.filter_congr
+      intro i hi
+      have := (List.mem_range'_1.mp hi).1
+      have e : i - k = (i - (k + 1)) + 1 := by omega
+      rw [e, List.getD_cons_succ]
+    rw [hrest]
+    cases a <;> simp [ih (k + 1)]
+
+/-- … and so is the support of a table (the one-rows of the output vector) -/
+theorem table_support_eq (t : Table α) (h : t.WF) :
+    t.support = t.domain.filter fun p => t.den (atPoint t.inputs p) := by
+  simp only [Table.support, Table.domain, allPoints]
+  rw [zipIdx_filter_map (fun i => rowIndexToPoint i t.inputs.length) t.outputs 0, List.filter_map]
+  rw [List.range_eq_range', h.2]
+  congr 1
+  apply List.filter_congr
+  intro i hi
+  have hi' : i < 2 ^ t.inputs.length := by
+    have := (List.mem_range'_1.mp hi).2
+    omega
+  simp only [Function.comp, Nat.sub_zero]
+  rw [table_den_atPoint t h _ (rowIndexToPoint_length i _ hi'), valMsb_rowIndexToPoint]
+
+/-- … and of a diagram in the model (lib-bdd yields the same set in its own order) -/
+theorem bdd_support_eq (b : Bdd α) (h : b.WF) :
+    b.support = b.domain.filter fun p => b.den (atPoint b.inputs p) := by
+  simp only [Bdd.support, Inner.satValuations, Bdd.domain, h.2.1]
+  apply List.filter_congr
+  intro p hp
+  rw [bdd_den_atPoint b h p (mem_allPoints.mp hp)]
+
+/-- **the three representations agree on every enumeration**: objects with the same inputs denoting
+    the same function have the same domain, image, relation, support and weight (and therefore the
+    same answer to "is there a satisfying point") -/
+theorem representations_agree (e : Expr α) (t : Table α) (b : Bdd α) (ht : t.WF) (hb : b.WF)
+    (hin1 : t.inputs = e.inputs) (hin2 : b.inputs = e.inputs)
+    (hd1 : ∀ ρ, t.den ρ = e.den ρ) (hd2 : ∀ ρ, b.den ρ = e.den ρ) :
+    (t.domain = e.domain ∧ b.domain = e.domain) ∧ (t.image = e.image ∧ b.image = e.image) ∧
+    (t.relation = e.relation ∧ b.relation = e.relation) ∧ (t.support = e.support ∧ b.support = e.support) ∧
+    (t.weight = e.weight ∧ b.weight = e.weight) := by
+  have d1 : t.domain = e.domain := by simp [Table.domain, Expr.domain, hin1]
+  have d2 : b.domain = e.domain := by simp [Bdd.domain, Expr.domain, hin2]
+  have i1 : t.image = e.image := by
+    rw [table_image t ht, expr_image, d1]
+    simp only [hd1, hin1]
+  have i2 : b.image = e.image := by
+    rw [bdd_image b hb, expr_image, d2]
+    simp only [hd2, hin2]
+  have s1 : t.support = e.support := by
+    rw [table_support_eq t ht, expr_support_eq, d1]
+    simp only [hd1, hin1]
+  have s2 : b.support = e.support := by
+    rw [bdd_support_eq b hb, expr_support_eq, d2]
+    simp only [hd2, hin2]
+  refine ⟨⟨d1, d2⟩, ⟨i1, i2⟩, ⟨?_, ?_⟩, ⟨s1, s2⟩, ⟨?_, ?_⟩⟩
+  · rw [table_relation t ht, expr_relation, d1, i1]
+  · rw [bdd_relation, expr_relation, d2, i2]
+  · rw [table_weight, expr_weight, s1]
+  · rw [bdd_weight b hb, expr_weight, s2]
+end
+
 /-- non-vacuity: a concrete two-variable function -/
 example : allPoints 2 = [[false, false], [false, true], [true, false], [true, true]] := by decide
 example : (Table.mk ["a", "b"] [false, true, true, false]).support = [[false, true], [true, false]] := by decide
